@@ -14,7 +14,7 @@ func H_C19_encrypt_pairs() {
 		e2 = newEvent(&pLeaf{Sens: nondetString()})
 	}
 	ctx := context.Background()
-	k := symLen(0, 3)
+	k := symLen(0, 4)
 	verifNoteInt("other", k)
 	verifPar(func() {
 		out, _ := ef.Process(ctx, e1)
@@ -33,6 +33,9 @@ func H_C19_encrypt_pairs() {
 			e1.FormattedAs("json", []byte("x"))
 		case 3:
 			e1.Format("json")
+		case 4:
+			// a rotation payload travelling through the shared filter while another event is being filtered
+			ef.Process(ctx, newEvent(&rotPayload{w: mkWrapper("p"), salt: []byte{5}, info: []byte{6}}))
 		}
 	})
 	verifReach("C19.encrypt.end")
